@@ -18,8 +18,8 @@ Print Assumptions wfb_iff_wf.
        the change actually MOVES in a multiplexer group holding x (all followers on shrink, the
        followers the push reaches on growth: ProofsLayout.moved_in) is held by that group only
        (the Coq counterpart of the harness classifier vinv.SharedFollowerMoved)       [D35]
-     - OAddValue / OUpdateIndex changing the enum size: the same for every referencing signal,
-       and no layout holds two referencing signals                                    [D35, D36]
+     - OAddValue / OUpdateIndex changing the enum size: the same for every referencing signal, and,
+       when the enum GROWS, no layout holds two referencing signals                   [D35, D36]
      - OSetMinSize: the size of attached referencing signals does not grow            [D03]
    The other 21 operations carry no hypothesis. Integer arguments are unbounded (Z): the Go code does
    no arithmetic on an unchecked argument after 594ad9e / 39797fd. *)
@@ -49,6 +49,14 @@ Theorem hypotheses_satisfiable : ok_hist_f example_ops /\
   = (((0%nat, 0, 2) :: (2%nat, 2, 5) :: (3%nat, 7, 3) :: nil) :: ((1%nat, 0, 2) :: (4%nat, 2, 2) :: nil) :: nil).
 Proof. exact (conj example_ok example_final). Qed.
 Print Assumptions hypotheses_satisfiable.
+
+(* the hypotheses do not exclude two signals of one message referencing an enum that shrinks: both pull
+   their followers (only the growth of such an enum is finding D36) *)
+Theorem hypotheses_allow_shared_shrink : ok_hist_f shrink_shared_ops /\
+  map (fun x => (x, rel (run shrink_shared_ops) x, sz (run shrink_shared_ops) x)) (glay (run shrink_shared_ops) 0)
+  = (0%nat, 0, 1) :: (1%nat, 1, 1) :: (2%nat, 2, 3) :: nil.
+Proof. exact shrink_shared_all. Qed.
+Print Assumptions hypotheses_allow_shared_shrink.
 
 (* The statement without hypotheses ([layout_wf_full]) is refuted by the faithful model: each
    witness leaves exactly one hypothesis and is replayed on the Go code (known findings). *)
